@@ -1,31 +1,22 @@
 (** C02 — single-part messages: body octets and header list survive
-    store + rebuild outside the finding classes, for every blob history. *)
+    store + rebuild, for every blob history and every later store
+    (code as of fixes C02-1, -3, -4, -6: no input is excepted any more). *)
 From Coq Require Import String Ascii List Bool Arith NArith ZArith Lia.
 From Raven Require Import Base.GoStr Base.GoStrMime Spec.Mime Model.MimeHeaders Model.MimeStore
-  Spec.MimeCheck Proof.MimeBlob Proof.MimeTrim.
+  Spec.MimeCheck Proof.MimeBlob Proof.MimeTrim Proof.MimeRows.
 Import ListNotations.
+
+Lemma inline_fields bs r a b p :
+  inline_row bs r = mk_row a b p None ->
+  pp_type (r_part r) = pp_type p /\ pp_charset (r_part r) = pp_charset p /\ pp_cte (r_part r) = pp_cte p
+  /\ row_content bs r = pp_text p.
+Proof.
+  unfold inline_row, set_text. intros H. injection H as _ _ H. destruct p. injection H. intros. cbn. auto.
+Qed.
 
 Section Single.
 Variable hash : str -> str.
 
-Lemma find_key_bound k : forall bs i j, find_key k bs i = Some j -> i <= j < i + length bs.
-Proof.
-  induction bs as [|[k' c] r IH]; intros i j H; simpl in *; [discriminate|].
-  destruct (str_eqb k' k).
-  - injection H as <-. lia.
-  - apply IH in H. lia.
-Qed.
-
-Lemma store_blob_spec bs c e :
-  exists ext, fst (store_blob hash bs c e) = bs ++ ext /\ snd (store_blob hash bs c e) < length (bs ++ ext).
-Proof.
-  unfold store_blob.
-  destruct (find_key _ bs 0) as [i|] eqn:F; simpl.
-  - exists []. rewrite app_nil_r. split; [reflexivity|]. apply find_key_bound in F. lia.
-  - eexists. split; [reflexivity|]. rewrite app_length. simpl. lia.
-Qed.
-
-(** pointwise-equivalent header lists, optionally followed by one default Content-Type *)
 Lemma hdrs_equiv_aux_pointwise allow : forall hs hs',
   Forall2 (fun h h' => hdr_eqv h h' = true) hs hs' -> hdrs_equiv_aux allow hs hs' = true.
 Proof.
@@ -41,25 +32,21 @@ Proof.
   - now rewrite E.
 Qed.
 
-Lemma hdr_kept h : fold_ws h = false -> hdr_eqv h (out_hdr (hdr_store h)) = true.
-Proof.
-  unfold fold_ws. destruct (has_fold (snd h)) eqn:F; simpl.
-  - intros H. now apply negb_false_iff in H.
-  - intros _. destruct h as [n v]. simpl in F. rewrite (hdr_store_no_fold n v F).
-    unfold hdr_eqv, out_hdr. cbn [fst snd]. rewrite trim_space_sp, !trim_space_idem, !str_eqb_refl. reflexivity.
-Qed.
+Lemma hdrs_kept hs : Forall2 (fun h h' => hdr_eqv h h' = true) hs (map out_hdr (map hdr_store hs)).
+Proof. induction hs as [|h t IH]; simpl; constructor; [apply hdr_kept | exact IH]. Qed.
 
-Lemma hdrs_kept hs : existsb fold_ws hs = false ->
-  Forall2 (fun h h' => hdr_eqv h h' = true) hs (map out_hdr (map hdr_store hs)).
-Proof.
-  induction hs as [|h t IH]; simpl; intros H; [constructor|].
-  apply orb_false_iff in H as [H1 H2]. constructor; [now apply hdr_kept | now apply IH].
-Qed.
+Definition has_cte (hs : list header) : bool := existsb (fun h => is_cte_name (fst h)) hs.
 
 Lemma stored_has_ct hs : existsb (fun h => is_ct_name (fst h)) (map hdr_store hs) = has_ct hs.
 Proof.
   unfold has_ct. induction hs as [|h t IH]; simpl; [reflexivity|].
   now rewrite fst_hdr_store, is_ct_name_trim, IH.
+Qed.
+
+Lemma stored_has_cte hs : existsb (fun h => is_cte_name (fst h)) (map hdr_store hs) = has_cte hs.
+Proof.
+  unfold has_cte. induction hs as [|h t IH]; simpl; [reflexivity|].
+  now rewrite fst_hdr_store, is_cte_name_trim, IH.
 Qed.
 
 Lemma header_get_none hs : has_ct hs = false -> header_get hs s_content_type = [].
@@ -76,105 +63,70 @@ Definition single_extra (hs : list header) : list header :=
   let cs := match ct with [] => S_ "us-ascii" | _ => [] end in
   if has_ct hs then []
   else (S_ "Content-Type", S_ " " ++ mt ++ (match cs with [] => [] | c => S_ "; charset=" ++ c end))
-       :: (match header_get hs s_cte_name with [] => [] | e => [(S_ "Content-Transfer-Encoding", S_ " " ++ e)] end).
+       :: (if has_cte hs then []
+           else match header_get hs s_cte_name with [] => [] | e => [(S_ "Content-Transfer-Encoding", S_ " " ++ e)] end).
 
-Definition single_no_boundary (hs : list header) : bool :=
-  has_prefix (media_type_of (header_get hs s_content_type)) s_multipart_.
-
-(** explicit result of store + fetch for a single-part message that meets no
-    conflicting blob: it mentions neither the blob table nor later stores *)
+(** explicit result of store + fetch for a single-part message: it mentions
+    neither the blob table nor later stores *)
 Lemma single_result : forall (bs later : blobs) (hs : list header) (b : str),
   hs <> [] ->
-  single_no_boundary hs = false ->
-  conflict_parts hash bs (snd (parse_msg (mk_msg hs (Single b)))) = false ->
   roundtrip hash bs (mk_msg hs (Single b)) later
   = Some (mk_msg (map out_hdr (map hdr_store hs) ++ single_extra hs) (Single b)).
 Proof.
-  intros bs later hs b Hne NB Hc. unfold single_no_boundary in NB.
-  unfold roundtrip, store, parse_msg, single_extra in *. cbn [m_body m_hdrs] in *.
-  set (ct := header_get hs s_content_type) in *.
-  assert (MT : has_prefix (match ct with [] => S_ "text/plain" | _ => media_type_of ct end) s_multipart_ = false).
-  { destruct ct; [reflexivity | exact NB]. }
-  rewrite MT in *. cbn [snd] in Hc.
-  set (mt := match ct with [] => S_ "text/plain" | _ => media_type_of ct end) in *.
-  set (cs := match ct with [] => S_ "us-ascii" | _ => [] end) in *.
-  set (enc := header_get hs s_cte_name) in *.
-  set (p := mk_pp None mt [] enc cs [] [] b) in *.
-  assert (CONTENT : exists r bs', store_parts hash bs [] [p] [] = (bs', [r])
-            /\ r_part r = mk_pp None mt [] enc cs [] [] (match r_blob r with Some _ => [] | None => b end)
-            /\ row_content (bs' ++ later) r = b).
-  { cbn [store_parts]. cbn [conflict_parts] in Hc.
-    destruct (out_of_line p) eqn:OL.
-    - destruct (store_blob_spec bs (pp_text p) (pp_cte p)) as (ext & E1 & E2).
-      destruct (store_blob hash bs (pp_text p) (pp_cte p)) as [bs1 id] eqn:SB. cbn [fst snd] in E1, E2.
-      eexists _, _. split; [reflexivity|]. cbn. split; [reflexivity|].
-      unfold row_content. cbn. rewrite get_blob_app by (rewrite E1; exact E2).
-      destruct (str_eqb (get_blob bs1 id) (pp_text p)) eqn:Q.
-      + apply str_eqb_eq in Q. exact Q.
-      + cbn in Hc. discriminate.
-    - eexists _, _. split; [reflexivity|]. cbn. split; reflexivity. }
-  destruct CONTENT as (r & bs' & SP & RP & RC).
-  rewrite SP. unfold fetch. cbn [s_rows s_hdrs].
+  intros bs later hs b Hne.
+  unfold roundtrip, store, parse_msg, single_extra. cbn [m_body m_hdrs].
+  set (ct := header_get hs s_content_type).
+  set (mt := match ct with [] => S_ "text/plain" | _ => media_type_of ct end).
+  set (cs := match ct with [] => S_ "us-ascii" | _ => [] end).
+  set (enc := header_get hs s_cte_name).
+  set (p := mk_pp None mt [] enc cs [] [] b).
+  destruct (store_parts hash bs [] [p] []) as [bs' rows'] eqn:SP.
+  apply store_parts_inline in SP as (ext & new & -> & -> & Hn).
+  specialize (Hn later). cbn [rowsP_aux] in Hn.
+  destruct new as [|r [|r2 new]]; cbn [map] in Hn; try discriminate.
+  remember (inline_row ((bs ++ ext) ++ later) r) as ir eqn:Hir.
+  injection Hn as Hr. subst ir.
+  apply inline_fields in Hr as (T & CS & CE & RC). cbn [pp_type pp_charset pp_cte pp_text p] in T, CS, CE, RC.
+  cbn [app]. unfold fetch. cbn [s_rows s_hdrs].
   assert (NE : exists x y, map hdr_store hs = x :: y).
   { destruct hs as [|h0 ht]; [exfalso; apply Hne; reflexivity | simpl; eauto]. }
   destruct NE as (x & y & NE). rewrite NE. rewrite <- NE.
-  rewrite stored_has_ct, RC, RP. cbn [pp_type pp_charset pp_cte].
+  rewrite stored_has_ct, stored_has_cte, RC, T, CS, CE.
   clearbody cs enc. destruct cs; destruct enc; reflexivity.
-Qed.
-
-Lemma classify_single_none bs hs b :
-  classify hash bs (mk_msg hs (Single b)) = None ->
-  single_no_boundary hs = false
-  /\ conflict_parts hash bs (snd (parse_msg (mk_msg hs (Single b)))) = false
-  /\ existsb fold_ws hs = false
-  /\ (negb (has_ct hs) && nonempty (header_get hs s_cte_name)) = false.
-Proof.
-  unfold classify, single_no_boundary. cbn [m_body m_hdrs].
-  destruct (has_prefix _ s_multipart_); [discriminate|].
-  destruct (conflict_parts _ _ _); [discriminate|].
-  destruct (existsb fold_ws hs); [discriminate|].
-  destruct (negb (has_ct hs) && nonempty (header_get hs s_cte_name)); [discriminate|].
-  auto.
 Qed.
 
 Theorem single_roundtrip : forall (bs later : blobs) (hs : list header) (b : str),
   hs <> [] ->
-  classify hash bs (mk_msg hs (Single b)) = None ->
   spec_ok (mk_msg hs (Single b)) (roundtrip hash bs (mk_msg hs (Single b)) later) = true.
 Proof.
-  intros bs later hs b Hne Hc.
-  destruct (classify_single_none bs hs b Hc) as (NB & CF & FW & DC).
-  rewrite (single_result bs later hs b Hne NB CF).
+  intros bs later hs b Hne.
+  rewrite (single_result bs later hs b Hne).
   unfold spec_ok, msg_equiv. cbn [m_body m_hdrs]. rewrite str_eqb_refl. cbn [andb].
   unfold hdrs_equiv, single_extra.
   destruct (has_ct hs) eqn:HC; cbn [negb].
-  - rewrite app_nil_r. apply hdrs_equiv_aux_pointwise, hdrs_kept, FW.
-  - cbn [negb andb] in DC. rewrite (header_get_none hs HC).
-    destruct (header_get hs s_cte_name); [|cbn in DC; discriminate].
-    apply hdrs_equiv_aux_added; [apply hdrs_kept, FW | reflexivity].
+  - rewrite app_nil_r. apply hdrs_equiv_aux_pointwise, hdrs_kept.
+  - rewrite (header_get_none hs HC).
+    assert (E : (if has_cte hs then []
+                 else match header_get hs s_cte_name with
+                      | [] => []
+                      | e => [(S_ "Content-Transfer-Encoding", S_ " " ++ e)]
+                      end) = [] \/ has_cte hs = false) by (destruct (has_cte hs); auto).
+    destruct (has_cte hs) eqn:HE.
+    + apply hdrs_equiv_aux_added; [apply hdrs_kept | reflexivity].
+    + assert (G : header_get hs s_cte_name = []).
+      { clear -HE. unfold has_cte in HE. induction hs as [|[n v] t IH]; simpl; [reflexivity|].
+        simpl in HE. apply orb_false_iff in HE as [H1 H2]. unfold is_cte_name in H1. simpl in H1.
+        rewrite H1. now apply IH. }
+      rewrite G. apply hdrs_equiv_aux_added; [apply hdrs_kept | reflexivity].
 Qed.
 
 (** independence of the history and of the time of the fetch *)
 Theorem single_independent : forall (bs1 bs2 later1 later2 : blobs) (hs : list header) (b : str),
   hs <> [] ->
-  classify hash bs1 (mk_msg hs (Single b)) = None ->
-  classify hash bs2 (mk_msg hs (Single b)) = None ->
   roundtrip hash bs1 (mk_msg hs (Single b)) later1 = roundtrip hash bs2 (mk_msg hs (Single b)) later2.
 Proof.
-  intros bs1 bs2 l1 l2 hs b Hne H1 H2.
-  destruct (classify_single_none bs1 hs b H1) as (NB & CF1 & _ & _).
-  destruct (classify_single_none bs2 hs b H2) as (_ & CF2 & _ & _).
-  now rewrite (single_result bs1 l1 hs b Hne NB CF1), (single_result bs2 l2 hs b Hne NB CF2).
-Qed.
-
-(** an empty blob table never conflicts for a single-part message *)
-Lemma single_no_conflict_empty hs b :
-  conflict_parts hash [] (snd (parse_msg (mk_msg hs (Single b)))) = false.
-Proof.
-  unfold parse_msg. cbn [m_body m_hdrs].
-  destruct (has_prefix _ s_multipart_); cbn [snd conflict_parts]; [reflexivity|].
-  destruct (out_of_line _); [|reflexivity].
-  unfold store_blob. cbn [find_key app length]. unfold get_blob. cbn. now rewrite str_eqb_refl.
+  intros bs1 bs2 l1 l2 hs b Hne.
+  now rewrite (single_result bs1 l1 hs b Hne), (single_result bs2 l2 hs b Hne).
 Qed.
 
 End Single.
